@@ -99,12 +99,17 @@ REF_IMPL = functools.partial(FAST, base_shape_multiple=1)
 
 
 def make_mesh(shape):
-  z, x, y = shape
+  """shape = [z, x, y] or [z, x, y, order] with order a permutation string of
+  'zxy' giving the order in which the mesh axes are declared."""
+  z, x, y = shape[:3]
+  order = shape[3] if len(shape) > 3 else 'zxy'
   n = z * x * y
   devs = jax.devices()
   if n > len(devs):
     raise ValueError(f'mesh {shape} needs {n} devices, have {len(devs)}')
-  return jax.sharding.Mesh(np.array(devs[:n]).reshape(z, x, y), ('z', 'x', 'y'))
+  sizes = {'z': z, 'x': x, 'y': y}
+  return jax.sharding.Mesh(
+      np.array(devs[:n]).reshape([sizes[a] for a in order]), tuple(order))
 
 
 def mesh_shapes(max_devices: int, include_odd=True):
